@@ -207,6 +207,8 @@ pub trait DynVec<F: Family> {
     fn eswap_with(&mut self, i: usize, other: &mut dyn DynVec<F>, j: usize);
     fn with_elem_mut(&mut self, j: usize, f: &mut dyn FnMut(&mut dyn ErasedMut));
     fn probe(&self);
+    /// address of the storage block (whatever the length currently is)
+    fn storage_ptr(&self) -> usize;
     fn views(&mut self);
     fn setlen(&mut self, k: usize, typed: bool);
     fn rawrt(&mut self);
@@ -875,6 +877,7 @@ macro_rules! impl_kind {
                 f(&mut *b);
             }
             fn probe(&self) { dispatch_tag!(F, self.ty, [self.probe_t], {F,}, ()) }
+            fn storage_ptr(&self) -> usize { self.v.as_bytes().as_ptr() as usize }
             fn views(&mut self) { dispatch_tag!(F, self.ty, [self.views_t], {F,}, ()) }
             fn setlen(&mut self, k: usize, typed: bool) { dispatch_tag!(F, self.ty, [self.setlen_t], {}, (k, typed)) }
             fn rawrt(&mut self) { impl_kind!(@rawrt $raw, self) }
